@@ -68,6 +68,29 @@ def _arg_form(e: ast.expr) -> str:
     return ast.unparse(e)
 
 
+def outcomes(repo, module, fn, env=None) -> List[str]:
+    """Canonical behaviour of a small function: the sorted set of
+    ``<pure path conditions> -> <returned term | raised term>`` over all paths
+    (independent of statement order, guard-clause vs if/else form, locals)."""
+    from .interp import Ctx, Frame, analyse_function
+    out = set()
+    for p in analyse_function(Ctx(repo), module, fn, env):
+        cs = set()
+        for c in p.conds:
+            if c[2]:
+                k, pol = Frame.norm_cond(c[2], c[1])
+                cs.add(f"{k}={'T' if pol else 'F'}")
+            else:
+                cs.add(c[0])
+        if p.status == "ret":
+            o = "ret " + (p.ret.key() if p.ret is not None else "None")
+        else:
+            rev = [e for e in p.events if e.kind == "raise"]
+            o = "raise " + (rev[-1].target.key() if rev and rev[-1].target is not None else (p.exc[0] if p.exc else "?"))
+        out.add(" & ".join(sorted(cs)) + " -> " + o)
+    return sorted(out)
+
+
 class Normaliser:
     def __init__(self, run: Run):
         self.run = run
@@ -190,9 +213,12 @@ class Normaliser:
             for s in f.body:
                 if isinstance(s, ast.FunctionDef):
                     inner[s.name] = s
+            amap_h = astu.single_assign_map(f)
             for s in astu.walk_no_nested(f):
                 if isinstance(s, ast.Return) and isinstance(s.value, ast.Call) and ast.unparse(s.value.func) == "PipelineStep" and s.value.args:
                     a0 = s.value.args[0]
+                    if isinstance(a0, ast.Name) and a0.id in amap_h and a0.id not in inner:
+                        a0 = astu.expand_locals(a0, amap_h)
                     if isinstance(a0, ast.Name) and a0.id in inner:
                         g = inner[a0.id]
                         if any(ast.unparse(d) == "pipeline_step" for d in g.decorator_list):
@@ -201,8 +227,10 @@ class Normaliser:
                             mapping = {ps[0]: ast.Name(id="INPUT", ctx=ast.Load())}
                             for k, v in defaults.items():
                                 mapping[k] = ast.Name(id=f"⟨{_arg_form(v)}⟩", ctx=ast.Load())
-                            stmts = [x for x in g.body if not (isinstance(x, ast.Expr) and isinstance(x.value, ast.Constant))]
-                            return "step " + "; ".join(ast.unparse(_Rename(mapping).visit(copy.deepcopy(x))) for x in stmts)
+                            env = {ps[0]: Sym("INPUT")}
+                            for k, v in defaults.items():
+                                env[k] = Sym(f"⟨{_arg_form(v)}⟩")
+                            return "step " + " | ".join(outcomes(self.run.repo, self.mod, g, env))
                     return self.step_form(a0)
             return None
         if name in self.instances:
@@ -220,7 +248,7 @@ EXPECTED = {
     "map": "λ builtins.map(P0, INPUT)",
     "filter": "λ builtins.filter(P0, INPUT)",
     "reduce": "λ _reduce(func=⟨P0⟩, iterable=INPUT, initial=⟨P1⟩)",
-    "into": "step return ⟨P0⟩(**INPUT) if isinstance(INPUT, Mapping) else ⟨P0⟩(*INPUT)",
+    "into": "step call:isinstance(INPUT,ext<typing.Mapping>)=F -> ret call:⟨P0⟩(star(INPUT)) | call:isinstance(INPUT,ext<typing.Mapping>)=T -> ret call:⟨P0⟩(kw:**(INPUT))",
     "flatten": "λ return itertools.chain.from_iterable(INPUT)",
     "flatmap": "map(P0) >> itertools.chain.from_iterable",
     "map_items": "ID >> λ INPUT.items() >> map(into(P0)) >> dict >> MappingProxyType",
@@ -279,10 +307,14 @@ EXPECTED = {
     "call_method": "λ _call_method(name=⟨P0⟩, args=⟨P1⟩, kwargs=⟨P2⟩, obj=INPUT)",
 }
 EXPECTED_PRIVATE = {
-    "_reduce": "if initial is MISSING:\n    return functools.reduce(func, iterable); return functools.reduce(func, iterable, initial)",
-    "_get": "try:\n    return container[key]\nexcept (KeyError, IndexError) as e:\n    if default is MISSING:\n        raise e\n    return default",
-    "_ensure": "assert predicate(value), msg; return value",
-    "_call_method": "return getattr(obj, name)(*args, **kwargs)",
+    # behaviour as path outcomes: "<conditions> -> ret <value> | raise <error>"
+    "_reduce": ["cmp:Is(initial,Const(MISSING))=F -> ret call:functools.reduce(func,iterable,initial)",
+                "cmp:Is(initial,Const(MISSING))=T -> ret call:functools.reduce(func,iterable)"],
+    "_get": [" -> ret getitem(container,key)",
+             "cmp:Is(default,Const(MISSING))=F & except (KeyError, IndexError) -> ret default",
+             "cmp:Is(default,Const(MISSING))=T & except (KeyError, IndexError) -> raise exc-of(container)"],
+    "_ensure": ["call:predicate(value)=F -> raise new:AssertionError(msg)", "call:predicate(value)=T -> ret value"],
+    "_call_method": [" -> ret callres(getattr(obj,name),star(args),kw:**(kwargs))"],
 }
 
 
@@ -310,9 +342,8 @@ def rule_HO(run: Run) -> RuleResult:
         fn = nz.funcs.get(name)
         if fn is None:
             continue
-        stmts = [s for s in fn.body if not (isinstance(s, ast.Expr) and isinstance(s.value, ast.Constant))]
-        form = "; ".join(ast.unparse(s) for s in stmts)
-        res.add(f"labrea.functions.{name}:body", form == want, f, fn.lineno, f"`{form[:150]}`" + ("" if form == want else f" — expected `{want[:150]}`"), nec)
+        form = outcomes(run.repo, nz.mod, fn)
+        res.add(f"labrea.functions.{name}:body", form == want, f, fn.lineno, f"outcomes {form}" + ("" if form == want else f" — expected {want}"), nec)
     res.count("helpers", n_red)
     if n_red < 55:
         raise AnalysisError(f"only {n_red} helper steps reduced (61 confirmed by hand)")
@@ -352,9 +383,11 @@ def rule_HF(run: Run) -> RuleResult:
                             captured.append(x)
             # handed on as an argument somewhere in the returned step
             passed = False
+            amap_f = astu.single_assign_map(fn)
             for r in astu.walk_no_nested(fn):
                 if isinstance(r, ast.Return) and isinstance(r.value, ast.Call) and r.value.args:
-                    for c in [r.value.args[0]] + list(astu.calls_in(r.value.args[0])):
+                    a0_ = astu.expand_locals(r.value.args[0], {k: v for k, v in amap_f.items() if k != p_})
+                    for c in [a0_] + list(astu.calls_in(a0_)):
                         if isinstance(c, ast.Call):
                             for a in list(c.args) + [k.value for k in c.keywords]:
                                 if astu.contains_name(a, p_) and not isinstance(a, ast.Lambda):
@@ -397,11 +430,15 @@ def rule_PI(run: Run) -> RuleResult:
     ok = True
     d = ""
     for p in ps:
+        from .facts import cond_pol
         conds = {c[0]: c[1] for c in p.conds}
         r = p.ret
         rk = r.key()
-        step = conds.get("isinstance(other, PipelineStep)")
-        pipe = conds.get("isinstance(other, Pipeline)")
+        step = cond_pol(p.conds, "call:isinstance(other,class<labrea.pipeline.PipelineStep>)")
+        pipe = cond_pol(p.conds, "call:isinstance(other,class<labrea.pipeline.Pipeline>)")
+        conds = dict(conds)
+        conds["other.empty"] = cond_pol(p.conds, "attr:empty(other)")
+        conds["other.rest is None"] = cond_pol(p.conds, "cmp:Is(attr:rest(other),Const(None))")
         if step:
             want = isinstance(r, New) and r.cls.name == "Pipeline" and r.attrs.get("tail") == Sym("other") and r.attrs.get("rest") == Child("<self>")
             seen.add("step")
@@ -452,6 +489,10 @@ def rule_PI(run: Run) -> RuleResult:
     ok = False
     if lf is not None:
         t = ast.unparse(lf)
-        ok = "if default is not param.empty:\n            eval_kwargs[param.name] = Evaluatable.ensure(default)" in t and "return PartialApplication(__func, **eval_kwargs)" in t
+        amap_l = astu.single_assign_map(lf)
+        rets = [astu.expand_locals(r.value, {k: v for k, v in amap_l.items() if not isinstance(v, (ast.Dict, ast.DictComp))}) for r in astu.walk_no_nested(lf) if isinstance(r, ast.Return) and r.value is not None]
+        final = [r for r in rets if isinstance(r, ast.Call) and astu.short_name(r) == "PartialApplication"]
+        ok = len(final) == 1 and any(k.arg is None for k in final[0].keywords) and final[0].args and "func" in ast.unparse(final[0].args[0]) \
+            and "Evaluatable.ensure(default)" in t and "default is not param.empty" in t and "kwargs.get(param.name, param.default)" in t
     res.add("labrea.application.PartialApplication.lift:defaulted parameters evaluated from options", ok, pa.module.relpath, lf.lineno if lf else 0, "", nec)
     return res
